@@ -60,6 +60,7 @@ func ConvertToParagraph(incoming interface{}) (*Paragraph, error) {
 func convertToParagraph(data reflect.Value) (*Paragraph, error) {
 	order := []string{}
 	values := map[string]string{}
+	omitted := map[string]bool{}
 
 	if data.Type().Kind() != reflect.Struct {
 		return nil, fmt.Errorf("Can only Decode a Struct")
@@ -96,6 +97,7 @@ func convertToParagraph(data reflect.Value) (*Paragraph, error) {
 
 		required := fieldType.Tag.Get("required") == "true"
 		if data == "" && !required {
+			omitted[paragraphKey] = true
 			continue
 		}
 
@@ -106,7 +108,15 @@ func convertToParagraph(data reflect.Value) (*Paragraph, error) {
 		order = append(order, paragraphKey)
 		values[paragraphKey] = data
 	}
-	para := foundParagraph.Update(Paragraph{Order: order, Values: values})
+	/* Fields the struct knows but holds no value for are not written; that
+	 * includes whatever the embedded Paragraph remembers about them. */
+	known := Paragraph{Order: []string{}, Values: map[string]string{}}
+	for _, key := range foundParagraph.Order {
+		if !omitted[key] {
+			known.Set(key, foundParagraph.Values[key])
+		}
+	}
+	para := known.Update(Paragraph{Order: order, Values: values})
 	return &para, nil
 }
 
